@@ -381,6 +381,9 @@ def run_cluster(case):
             sim.call(leader, lambda: sim.nodes[leader].setCodeVersion(1, callback=lambda r, e: done.append(e)))
         if kind == 'list' and (not settle(sim, lambda: bool(done)) or done != [0]):
             raise runner.HarnessError('setCodeVersion(1) did not succeed on a healthy cluster: %r %r' % (done, sim.escaped[:2]))
+        # a ver=1 method exists on a node only once that node has applied the version entry: wait for all of them
+        if kind == 'list' and not settle(sim, lambda: all(sim.nodes[n].getCodeVersion() == 1 for n in sim.live())):
+            raise runner.HarnessError('code version 1 did not reach every replica of a healthy cluster')
         ops = case['ops']
         cut = len(ops) // 3
         caught_up = lambda: (len(set((sim.nodes[n].raftLastApplied) for n in sim.live())) == 1 and
